@@ -218,6 +218,40 @@ def enum_unmerges(seed):
                         probs.append(f"protected base directory {k} was removed")
             if probs and len(fails) < 4:
                 fails.append({"model": model, "detail": f"removing {model['old']} (new package: {model['new']}, foreign files {foreign}): " + "; ".join(probs[:4])})
+        # the engine's own uninstall set, with and without an offset: every recorded entry that is on disk under the root is in it
+        import types as _types
+        for s_ in range(6):
+            rnd = random.Random(seed * 77 + s_)
+            src, root = os.path.join(scratch, f"es{s_}"), os.path.join(scratch, f"er{s_}")
+            names = rnd.sample(NAMES, rnd.choice((3, 5)))
+            c18._build(rnd, src, names)
+            recorded = contents.contentsSet(livefs.scan(src, offset=src))
+            os.makedirs(root)
+            ops.merge_contents(recorded, offset=root)
+            gone = rnd.choice([x.location for x in recorded.iterfiles()] + [None])
+            if gone:
+                os.unlink(os.path.join(root, gone.lstrip("/")))
+            for with_offset in (True, False):
+                cases += 1
+                pkg = _types.SimpleNamespace(contents=recorded if with_offset else recorded.insert_offset(root), cpvstr="cat/pkg-1")
+
+                class _Obs:
+                    def __getattr__(self, n):
+                        return lambda *a, **k: None
+                tmp = os.path.join(scratch, f"et{s_}{int(with_offset)}")
+                os.makedirs(tmp)
+                model = {"recorded": sorted(x.location for x in recorded), "offset": root if with_offset else None, "missing_on_disk": gone}
+                try:
+                    eng = engine.MergeEngine.uninstall(tmp, pkg, offset=root if with_offset else None, observer=_Obs(), disable_plugins=True)
+                    got = sorted(os.path.relpath(x.location, root) for x in eng.csets["uninstall"])
+                except Exception as e:
+                    if len(fails) < 4:
+                        fails.append({"model": model, "detail": f"MergeEngine.uninstall(offset={model['offset']}) raised {type(e).__name__}: {e}"})
+                    continue
+                want = sorted(x.location.lstrip("/") for x in recorded if x.location != gone)
+                if got != want and len(fails) < 4:
+                    fails.append({"model": model, "detail": f"MergeEngine.uninstall({'offset=<root>' if with_offset else 'recorded paths under <root>, no offset'}): the uninstall set is {got}; "
+                                                            f"the package recorded {want} and all of them are on disk under the root"})
         # protected base paths recorded as symlinks (merged-usr / multilib roots: /lib -> lib64, /bin -> usr/bin) or as directories
         from pkgcore.fs import fs as F
         for kind in ("dir", "sym"):
@@ -258,7 +292,7 @@ def enum_unmerges(seed):
     finally:
         shutil.rmtree(scratch, ignore_errors=True)
     return {"name": "C20.unmerges.bounded_enumeration", "bound": "40 seeded scratch roots: an old package of 3..6 of 9 entries (files, hardlinks, symlinks, fifos, nested directories under usr / etc / opt) merged, "
-            "optionally a replacing package of 4 entries merged over it, foreign files dropped into shared directories, then get_remove_cset + BaseSystemUnmergeProtection + unmerge_contents; snapshots compared; 8 roots whose protected base path (/lib, /bin, /usr/lib, /sbin) is recorded as a directory or as a symlink", "cases": cases, "failures": fails}
+            "optionally a replacing package of 4 entries merged over it, foreign files dropped into shared directories, then get_remove_cset + BaseSystemUnmergeProtection + unmerge_contents; snapshots compared; 6 roots x the engine's uninstall set with and without an offset; 8 roots whose protected base path (/lib, /bin, /usr/lib, /sbin) is recorded as a directory or as a symlink", "cases": cases, "failures": fails}
 
 
 def tasks():
